@@ -301,8 +301,8 @@ class Engine(object):
     def push(self, trail):
         self.worklist.append(trail)
 
-    def add_contract(self, c):
-        self.contracts[c.target] = c
+    def add_contract(self, c, key=None):
+        self.contracts[key or c.target] = c
         return c
 
     def add_opaque(self, oc):
@@ -808,6 +808,7 @@ class Engine(object):
         produce counterexamples; nothing is proved by them."""
         self.ground = ground
         c = self.contracts[target]
+        target = c.target
         res = FunctionResult(target)
         got = self.repo.find(target)
         if got is None:
